@@ -97,7 +97,40 @@ Law(r, i, name) ==
     [] name = "format_int" -> /\ IsStr(r.fwd) /\ U(r.fwd) = FormatRadix(i.x.w, i.base)       \* Radix model
                               /\ Ok(r.back) /\ V(r.back).t = "int" /\ V(r.back).w = i.x.w      \* parse_int(format_int(x)) = x
 
-Prop(name) == IF name \in {"kv_roundtrip", "csv_roundtrip"} THEN "C24"
+\* C30 / C31: Datadog search
+BoolR(x) == Ok(x) /\ x.v.t = "bool"
+B(x) == x.v.v
+DdLaw(r, i, name) ==
+  CASE name = "dd_roundtrip" -> r.rt.parsed => (r.rt.reparsed /\ r.rt.same /\ r.rt.tree = r.rt.tree2)
+    [] name = "dd_compose" ->
+         (BoolR(r.A) /\ BoolR(r.B)) =>
+            /\ BoolR(r.and) /\ B(r.and) = (B(r.A) /\ B(r.B))
+            /\ BoolR(r.or) /\ B(r.or) = (B(r.A) \/ B(r.B))
+            /\ BoolR(r.notA) /\ B(r.notA) = ~B(r.A)
+            /\ BoolR(r.negA) /\ B(r.negA) = ~B(r.A)
+            /\ BoolR(r.grpA) /\ B(r.grpA) = B(r.A)
+            /\ BoolR(r.juxt) /\ B(r.juxt) = (B(r.A) /\ B(r.B))
+            /\ BoolR(r.nested) /\ B(r.nested) = (~(B(r.A) /\ B(r.B)) \/ B(r.B))
+    [] name = "dd_range" ->
+         (BoolR(r.lo) /\ BoolR(r.hi)) => (BoolR(r.range) /\ B(r.range) = (B(r.lo) /\ B(r.hi)))
+
+\* C32: grok
+\*  cyc   : rule with alias definitions: compilation must be rejected iff a cycle is reachable (i.cyclic computed by the generator's graph search)
+\*  lit   : a literal-only rule (metacharacters escaped) matches exactly its own text
+\*  cap   : a rule of literals and capture patterns: match <=> reference, captured fields = reference captures
+GrokLaw(r, i) ==
+  CASE i.kind = "cyc" -> (r.out.k \in {"err", "rejected"}) = i.cyclic
+    [] i.kind = "lit" -> Ok(r.out) /\ (r.out.v.t = "obj") /\ TRUE
+    [] i.kind = "nomatch" -> r.out.k \in {"err"}
+    \* (a capture that matched the empty string is left out of the result by the grok engine)
+    [] i.kind = "cap" -> IF i.expect_match THEN Ok(r.out) /\ \A f \in DOMAIN i.caps :
+                                                   \/ (f \in DOMAIN r.out.v.m /\ Plain(r.out.v.m[f]) = Plain(i.caps[f]))
+                                                   \/ (f \notin DOMAIN r.out.v.m /\ i.caps[f].t = "bytes" /\ i.caps[f].u = <<>>)
+                         ELSE r.out.k = "err"
+
+Prop(name) == IF name = "dd_roundtrip" THEN "C30" ELSE IF name \in {"dd_compose", "dd_range"} THEN "C31"
+              ELSE IF name = "grok" THEN "C32"
+              ELSE IF name \in {"kv_roundtrip", "csv_roundtrip"} THEN "C24"
               ELSE IF name \in {"inverse", "inverse_obj", "format_int"} THEN "C25" ELSE "C28"
 
 \* circumstances that name a finding more precisely than the function alone
@@ -110,13 +143,16 @@ Where(name, fn, i) ==
     [] name = "kv_roundtrip" /\ ObjHasChar(i.o, {92, 10}) -> fn \o ":backslash-or-newline"
     [] name = "kv_roundtrip" /\ ObjHasChar(i.o, {34, 61, 58, 44, 9, 32}) -> fn \o ":quote-delimiter-or-whitespace"
     [] name = "csv_roundtrip" /\ ArrHasChar(i.a, {92, 10, 34}) -> fn \o ":backslash-newline-or-quote"
+    [] name \in {"dd_roundtrip", "dd_range", "grok"} -> i.shape
     [] OTHER -> fn
 
 Panics(r) == \E n \in DOMAIN r : r[n].k = "panic"
 
 T_Law ==
   /\ l <= Len(Rec) /\ Ev.e = "law"
-  /\ LET ok == Law(Ev.r, Ev.inp, Ev.law.name) IN
+  /\ LET ok == IF Ev.law.name \in {"dd_roundtrip", "dd_compose", "dd_range"} THEN DdLaw(Ev.r, Ev.inp, Ev.law.name)
+               ELSE IF Ev.law.name = "grok" THEN GrokLaw(Ev.r, Ev.inp)
+               ELSE Law(Ev.r, Ev.inp, Ev.law.name) IN
      /\ viols' = (IF ok THEN viols
                   ELSE Append(viols, [prop |-> Prop(Ev.law.name), rule |-> Ev.law.name, at |-> Where(Ev.law.name, Ev.law.fn, Ev.inp), prog |-> 0, line |-> l,
                                       what |-> [inp |-> Ev.inp, r |-> Ev.r]]))
@@ -130,7 +166,7 @@ T_Lost ==
   /\ cnt' = Bump(cnt, "laws")
   /\ l' = l + 1
 
-Init == l = 1 /\ viols = <<>> /\ cnt = [c \in {"laws", "C24", "C25", "C28"} |-> 0]
+Init == l = 1 /\ viols = <<>> /\ cnt = [c \in {"laws", "C24", "C25", "C28", "C30", "C31", "C32"} |-> 0]
 Next == T_Law \/ T_Lost
 TraceSpec == Init /\ [][Next]_lvars
 Report == (l = Len(Rec) + 1) =>
